@@ -160,25 +160,54 @@ class _Unsupported(Exception):
     pass
 
 
-def _stage_value(expr, stage, coll):
-    """Value of the expression at `stage` (see module docstring). Returns (value, stage_expr)."""
-    import dask
+def _stage_expr(expr, stage):
+    """The real optimizer's output for `stage` (None for "compute", which goes through the collection)."""
     from dask._expr import optimize_until
-    from dask.dataframe.dask_expr._collection import new_collection
 
     if stage == "compute":
-        return coll.compute(scheduler="sync"), None
+        return None
     if stage in ("reoptimized-fused", "reoptimized"):
         fuse = stage == "reoptimized-fused"
-        e = expr.optimize(fuse=fuse).optimize(fuse=fuse)
-    else:
-        e = optimize_until(expr, stage)
+        return expr.optimize(fuse=fuse).optimize(fuse=fuse)
+    return optimize_until(expr, stage)
+
+
+def _execute(e, coll):
+    """Materialise the graph of stage expression e and run it with the synchronous scheduler."""
+    import dask
+    from dask.dataframe.dask_expr._collection import new_collection
+
+    if e is None:
+        return coll.compute(scheduler="sync")
     low = e.lower_completely()
     graph = low.__dask_graph__()
     keys = low.__dask_keys__()
     res = dask.get(graph, keys)
     fin, args = new_collection(low).__dask_postcompute__()
-    return fin(res, *args), e
+    return fin(res, *args)
+
+
+def _fused_stale(e):
+    """Structural invariant of Fused nodes: every expression a fused group reads is either inside the group or one
+    of the group's declared operands.  Returns a description of the first stale reference or None."""
+    try:
+        todo = [f for f in e.walk() if type(f).__name__ == "Fused"]
+        seen = set()
+        while todo:
+            f = todo.pop()
+            if f._name in seen:
+                continue
+            seen.add(f._name)
+            known = {x._name for x in f.exprs} | {d._name for d in f.dependencies()}
+            for x in f.exprs:
+                if type(x).__name__ == "Fused":
+                    todo.append(x)    # a group fused again by the second pass
+                for d in x.dependencies():
+                    if d._name not in known:
+                        return "fused group %s reads %s which is neither in the group nor among its operands" % (f._name, d._name)
+    except Exception:  # noqa: BLE001
+        return None
+    return None
 
 
 def _check(prog, pdf, part, ordered, idx_ok, stages, observe=None):
@@ -205,7 +234,7 @@ def _check(prog, pdf, part, ordered, idx_ok, stages, observe=None):
                 return ("reject", "pandas: %s: %s" % (type(e2).__name__, e2))
             if through_shim(e):
                 return ("env", "%s: %s" % (type(e).__name__, e))
-            return ("bad", [("build", exc_label(e), "%s: %s" % (type(e).__name__, e), e)])
+            return ("bad", [("build", exc_label(e), "%s: %s" % (type(e).__name__, e), e, None)])
         try:
             expected = P.evaluate(prog, pdf, "pd", dec)
         except Exception as e:  # noqa: BLE001
@@ -217,19 +246,23 @@ def _check(prog, pdf, part, ordered, idx_ok, stages, observe=None):
             observe("expr", expr)
         groups = stages if stages and isinstance(stages[0], (tuple, list)) else (tuple(stages),)
         fails = []
-        for grp in groups:
+        for gi, grp in enumerate(groups):
+            if gi and fails:
+                break   # re-optimization inherits whatever the first pass got wrong
             for st in grp:
+                e = None
                 try:
-                    val, e = _stage_value(expr, st, coll)
+                    e = _stage_expr(expr, st)
+                    if observe is not None:
+                        observe(st, e)
+                    val = _execute(e, coll)
                 except NotImplementedError as ex:
                     return ("unsupported", "%s: %s" % (st, ex))
                 except Exception as ex:  # noqa: BLE001
                     if through_shim(ex):
                         return ("env", "%s: %s" % (type(ex).__name__, ex))
-                    fails.append((st, exc_label(ex), "%s: %s" % (type(ex).__name__, ex), ex))
+                    fails.append((st, exc_label(ex), "%s: %s" % (type(ex).__name__, ex), ex, _fused_stale(e) if e is not None else None))
                     break
-                if observe is not None:
-                    observe(st, e)
                 try:
                     m = frames.compare(val, expected, ordered=ordered, check_index=idx_ok, rtol=1e-9)
                     if m is not None and m[0] == "index" and ordered and _same_index(val, expected):
@@ -237,7 +270,8 @@ def _check(prog, pdf, part, ordered, idx_ok, stages, observe=None):
                 except Exception as ex:  # noqa: BLE001  comparison itself failed: treat as a mismatch with the reason
                     m = ("uncomparable", "%s: %s" % (type(ex).__name__, ex))
                 if m is not None:
-                    fails.append((st, m[0], "%s | got %s | expected %s" % (m[1], _show(val), _show(expected)), None))
+                    fails.append((st, m[0], "%s | got %s | expected %s" % (m[1], _show(val), _show(expected)), None,
+                                  _fused_stale(e) if e is not None else None))
                     break
         if fails:
             return ("bad", fails)
@@ -262,7 +296,7 @@ def _show(v):
     return repr(v)[:200]
 
 
-def _shrink(prog, pdf, part, ordered, idx_ok, stage, symptom, limit=60):
+def _shrink(prog, pdf, part, ordered, idx_ok, stage, symptom, limit=150):
     """Smallest program found that still shows `symptom` at `stage` (order/index flags kept: they can only
     make the comparison weaker for sub-programs produced by bypassing, never stronger)."""
     from vf.gen import c43_programs as P
@@ -377,12 +411,17 @@ def run_case(case, ctx):
                       "fused_nodes": fusedn, "stages_checked": len(ALL_STAGES)}
         return
     # ---- disagreement(s): shrink to name the mechanism ------------------------------------------
-    for stage, symptom, message, exc in r[1]:
-        try:
-            small = _shrink(prog, pdf, part, case["ord"], case["idx"], stage, symptom)
-        except Exception:  # noqa: BLE001
+    for stage, symptom, message, exc, stale in r[1]:
+        if stale:
             small = prog
-        label = _label(stage, symptom, small, message)
+            label = "%s:fused-group-reads-rewritten-dependency:%s" % (stage, symptom)
+            message = stale + " | " + message
+        else:
+            try:
+                small = _shrink(prog, pdf, part, case["ord"], case["idx"], stage, symptom)
+            except Exception:  # noqa: BLE001
+                small = prog
+            label = "%s:%s:%s" % (stage, "+".join(P.features(small, shared=False)) or "none", symptom)
         detail = {"program": P.text(prog), "shrunk_program": P.text(small), "partitioning": part, "rows": len(pdf),
                   "index": case["index"], "frame_seed": case["fseed"]}
         if exc is not None:
@@ -390,9 +429,3 @@ def run_case(case, ctx):
 
             detail["traceback"] = "".join(traceback.format_exception(type(exc), exc, exc.__traceback__))[-2500:]
         ctx.violation(label, "%s at stage %s: %s" % (symptom, stage, message), **detail)
-
-
-def _label(stage, symptom, small, message):
-    from vf.gen import c43_programs as P
-
-    return "%s:%s:%s" % (stage, "+".join(P.features(small)) or "none", symptom)
